@@ -822,6 +822,69 @@ func genConverge(seed uint64, n int, out string) {
 	}
 }
 
+// genConvergeSweep writes every single-change history (create, delete, every ordered pair of
+// variants of every object of the grammar) over two rich base meshes (without / with the Sidecar
+// resources). Used when a tie breaks (targeted search for a failing input) and in the thorough tier.
+func genConvergeSweep(out string) {
+	o := wire.Create(out)
+	defer o.Close()
+	type obj struct {
+		id string
+		n  int
+	}
+	var objs []obj
+	for _, d := range universe {
+		objs = append(objs, obj{d.ID, len(d.Variants)})
+	}
+	for _, d := range kubeUniverse {
+		objs = append(objs, obj{d.ID, len(d.Variants)})
+	}
+	n := 0
+	for _, withSidecars := range []bool{false, true} {
+		base := world{}
+		for _, x := range objs {
+			if !withSidecars && (x.id == "sc-ns1" || x.id == "sc-wl") {
+				continue
+			}
+			base[x.id] = 0
+		}
+		emit := func(w world, st ...string) {
+			o.Line("case", strconv.Itoa(n), "converge", "10", w.tok())
+			o.Line(append([]string{"step"}, st...)...)
+			n++
+		}
+		for _, x := range objs {
+			if !withSidecars && (x.id == "sc-ns1" || x.id == "sc-wl") {
+				// the Sidecar resources themselves are swept over the base that has none of the other
+				w := base.clone()
+				for v := 0; v < x.n; v++ {
+					emit(w, "create", x.id, strconv.Itoa(v))
+				}
+				continue
+			}
+			for v := 0; v < x.n; v++ {
+				w := base.clone()
+				w[x.id] = v
+				if v == 0 || !withSidecars {
+					emit(w, "delete", x.id, "0")
+				}
+				for v2 := 0; v2 < x.n; v2++ {
+					if v2 != v {
+						emit(w, "update", x.id, strconv.Itoa(v2))
+					}
+				}
+			}
+			w := base.clone()
+			delete(w, x.id)
+			for v := 0; v < x.n; v++ {
+				if v == 0 || !withSidecars {
+					emit(w, "create", x.id, strconv.Itoa(v))
+				}
+			}
+		}
+	}
+}
+
 func oracleConverge(in, out string) {
 	cases := parseCases(wire.ReadLines(in))
 	o := wire.Create(out)
